@@ -538,10 +538,11 @@ func edgeDelaysS(tolNs, ttlNs int64) []int64 { // whole-second part, in ns
 
 const subSecond = int64(999_999_999)
 
-// enumerate calls f for every case of the site's grid, in a fixed order, without duplicates.
-func enumerate(siteName string, tolNs, ttlNs int64, thorough bool, f func(Case)) (nOff, nDelay int) {
+// enumerate calls f for every case of the site's EDGE grid (both tiers), in a fixed order, without
+// duplicates, and returns the set it emitted (the dense grid skips those).
+func enumerate(siteName string, tolNs, ttlNs int64, f func(Case)) (nOff, nDelay int, seen map[Case]bool) {
 	tolS := tolNs / 1e9
-	seen := map[Case]bool{}
+	seen = map[Case]bool{}
 	emit := func(c Case) {
 		if !seen[c] {
 			seen[c] = true
@@ -563,24 +564,32 @@ func enumerate(siteName string, tolNs, ttlNs int64, thorough bool, f func(Case))
 			}
 		}
 	}
-	if thorough {
-		maxD := 2 * tolNs
-		if ttlNs > maxD {
-			maxD = ttlNs
-		}
-		maxD = (maxD/1e9 + 3) * 1e9
-		nOff, nDelay = int(2*(tolS+2)+1), int(maxD/1e9+1)
-		for _, phi1 := range []int64{0, 5e8} {
-			for d := int64(0); d <= maxD; d += 1e9 {
-				for _, phi2 := range []int64{0, subSecond} {
-					for off := -tolS - 2; off <= tolS+2; off++ {
-						emit(Case{Site: siteName, OffS: off, DelayNs: d + phi2, Phi1Ns: phi1})
-					}
+	return
+}
+
+// dense grid (thorough): every whole second of offset in [-tol-2, tol+2] x every whole second of
+// delay in [0, max(2tol, ttl)+3] x recv-phase {0, 0.5s} x delay sub-second {0, +0.999999999s}.
+func denseMaxDelayS(tolNs, ttlNs int64) int64 {
+	maxD := 2 * tolNs
+	if ttlNs > maxD {
+		maxD = ttlNs
+	}
+	return maxD/1e9 + 3
+}
+
+// enumerateDenseAt emits the dense-grid cases of one whole-second delay (minus the edge grid's).
+func enumerateDenseAt(siteName string, tolNs int64, dS int64, skip map[Case]bool, f func(Case)) {
+	tolS := tolNs / 1e9
+	for _, phi1 := range []int64{0, 5e8} {
+		for _, phi2 := range []int64{0, subSecond} {
+			for off := -tolS - 2; off <= tolS+2; off++ {
+				c := Case{Site: siteName, OffS: off, DelayNs: dS*1e9 + phi2, Phi1Ns: phi1}
+				if !skip[c] {
+					f(c)
 				}
 			}
 		}
 	}
-	return
 }
 
 // ---- histories ------------------------------------------------------------------------------------
@@ -617,29 +626,53 @@ func gapGrid(ttlS int64, ivs []int64) []int64 {
 	return uniq(out)
 }
 
-func histShapes(thorough bool) []string {
-	sh := []string{"MR", "MUR", "MVR", "UMR", "VMR", "MUUR", "MUVR", "MVUR", "MVVR"}
-	if thorough {
-		sh = append(sh, "UMUR", "UMVR", "VMUR", "VMVR", "UUMR", "UVMR", "VUMR", "VVMR")
-	}
-	return sh
-}
+var (
+	histShapesQuick = []string{"MR", "MUR", "MVR", "UMR", "VMR", "MUUR", "MUVR", "MVUR", "MVVR"}
+	histShapesExtra = []string{"UMUR", "UMVR", "VMUR", "VMVR", "UUMR", "UVMR", "VUMR", "VVMR"}
+)
 
 // enumerateHist calls f for every history case of the site, in a fixed order. Distinct by construction.
-func enumerateHist(siteName string, tolNs, ttlNs int64, ivs []int64, thorough bool, f func(Case)) (gaps []int64) {
+// extra=false: the quick set (both tiers run it first). extra=true: what thorough adds to it (for the
+// quick shapes the construction gaps the quick set leaves out; the X-first 4-delivery shapes, starting
+// at construction time).
+func enumerateHist(siteName string, tolNs, ttlNs int64, ivs []int64, extra bool, f func(Case)) (gaps []int64) {
 	tolS := tolNs / 1e9
 	gaps = gapGrid(ttlNs/1e9, ivs)
-	first := []int64{0}
+	firstQ, firstAll := []int64{0}, []int64{0}
 	for _, i := range ivs {
-		first = append(first, i+1)
-		if thorough {
-			first = append(first, i)
-		}
+		firstQ = append(firstQ, i+1)
+		firstAll = append(firstAll, i, i+1)
 	}
-	first = uniq(first)
+	firstQ, firstAll = uniq(firstQ), uniq(firstAll)
+	isQuickShape := func(shape string) bool {
+		for _, x := range histShapesQuick {
+			if x == shape {
+				return true
+			}
+		}
+		return false
+	}
+	inQuick := func(shape string, a0 int64) bool { // is (shape, construction gap) part of the quick set?
+		if !isQuickShape(shape) {
+			return false
+		}
+		if len(shape) >= 4 {
+			return a0 == 0 // quick: 4-delivery histories start at construction time
+		}
+		for _, x := range firstQ {
+			if x == a0 {
+				return true
+			}
+		}
+		return false
+	}
 	bound := 2*tolS + 2 // M..R longer than this: R is outside the window whatever the offset
 	offs := edgeOffsets(tolS)
-	for _, shape := range histShapes(thorough) {
+	shapes := histShapesQuick
+	if extra {
+		shapes = append(append([]string{}, histShapesQuick...), histShapesExtra...)
+	}
+	for _, shape := range shapes {
 		mIdx := strings.IndexByte(shape, 'M')
 		adv := make([]int64, len(shape))
 		var rec func(i int, mToR int64)
@@ -660,12 +693,12 @@ func enumerateHist(siteName string, tolNs, ttlNs int64, ivs []int64, thorough bo
 			}
 			g := gaps
 			if i == 0 {
-				g = first
-				if !thorough && len(shape) >= 4 {
-					g = first[:1] // quick: 4-delivery histories start at construction time
-				}
+				g = firstAll
 			}
 			for _, a := range g {
+				if i == 0 && (inQuick(shape, a) == extra || (a != 0 && !isQuickShape(shape))) {
+					continue // X-first 4-delivery shapes start at construction time: their first X sets the sweep phase
+				}
 				m := mToR
 				if i > mIdx {
 					m += a
@@ -862,35 +895,71 @@ func main() {
 		}
 		out.Samples = all
 	} else {
+		// Phase 0 (both tiers, no time cap): per site the quick history set, then the edge time grid.
+		// Phases 1-2 (thorough only, under the time cap; a cut sets exhaustive=false, never an error):
+		// the extra histories of every site, then the dense time grid delay by delay ACROSS the sites,
+		// so that a cut leaves every site covered to the same depth.
 		idx, mine := 0, 0
-		for _, s := range sites {
+		capped := false
+		var cur site
+		visit := func(c Case) {
+			idx++
+			if idx%*of != *shard {
+				return
+			}
+			if capped && !out.Exhaustive {
+				return
+			}
+			mine++
+			if capped && *deadline > 0 && mine%128 == 0 && time.Now().Unix() > *deadline {
+				out.Exhaustive = false
+				return
+			}
+			record(cur, runCaseRetry(cur, c, &out.Retried))
+		}
+		ttls := make([]time.Duration, len(sites))
+		skips := make([]map[Case]bool, len(sites))
+		for i, s := range sites {
 			security.VerifSetClock(epochS * 1e9)
 			ttl := s.mk().ttl()
 			if s.tol < time.Second || ttl <= 0 {
 				fail("site %s: tolerance %v / ttl %v not usable", s.name, s.tol, ttl)
 			}
+			ttls[i] = ttl
 			out.Sites[s.name] = SiteInfo{TolNs: int64(s.tol), TTLNs: int64(ttl)}
-			visit := func(c Case) {
-				idx++
-				if idx%*of != *shard {
-					return
-				}
-				if !out.Exhaustive {
-					return
-				}
-				mine++
-				if *deadline > 0 && mine%128 == 0 && time.Now().Unix() > *deadline {
-					out.Exhaustive = false
-					return
-				}
-				record(s, runCaseRetry(s, c, &out.Retried))
+			cur = s
+			out.HistGaps[s.name] = enumerateHist(s.name, int64(s.tol), int64(ttl), ivSecs, false, visit)
+			dbg("site " + s.name + " quick histories done, deliveries so far " + strconv.Itoa(out.Deliveries))
+			out.GridOffsets[s.name], out.GridDelays[s.name], skips[i] = enumerate(s.name, int64(s.tol), int64(ttl), visit)
+			dbg("site " + s.name + " edge grid done, deliveries so far " + strconv.Itoa(out.Deliveries))
+		}
+		if *tier == "thorough" {
+			capped = true
+			for i, s := range sites {
+				cur = s
+				enumerateHist(s.name, int64(s.tol), int64(ttls[i]), ivSecs, true, visit)
+				dbg("site " + s.name + " extra histories done, deliveries so far " + strconv.Itoa(out.Deliveries))
 			}
-			// histories first: in thorough the dense time grid is what the time cap may cut short
-			out.HistGaps[s.name] = enumerateHist(s.name, int64(s.tol), int64(ttl), ivSecs, *tier == "thorough", visit)
-			dbg("site " + s.name + " histories done, deliveries so far " + strconv.Itoa(out.Deliveries))
-			no, nd := enumerate(s.name, int64(s.tol), int64(ttl), *tier == "thorough", visit)
-			out.GridOffsets[s.name], out.GridDelays[s.name] = no, nd
-			dbg("site " + s.name + " deliveries so far " + strconv.Itoa(out.Deliveries))
+			maxAll := int64(0)
+			for i, s := range sites {
+				m := denseMaxDelayS(int64(s.tol), int64(ttls[i]))
+				out.GridOffsets[s.name], out.GridDelays[s.name] = int(2*(int64(s.tol)/1e9+2)+1), int(m+1)
+				if m > maxAll {
+					maxAll = m
+				}
+			}
+			for d := int64(0); d <= maxAll && out.Exhaustive; d++ {
+				for i, s := range sites {
+					if d <= denseMaxDelayS(int64(s.tol), int64(ttls[i])) {
+						cur = s
+						enumerateDenseAt(s.name, int64(s.tol), d, skips[i], visit)
+					}
+				}
+				if out.Exhaustive {
+					out.DenseDelaysDone = int(d + 1)
+				}
+			}
+			dbg("dense grid done, deliveries so far " + strconv.Itoa(out.Deliveries))
 		}
 	}
 	keys := make([]string, 0, len(classes))
